@@ -93,7 +93,7 @@ CHECKS = {
     "C20": dict(
         level="fault_enumeration",
         technique="TLA+ spec Startup (validity predicate over the described set-up, reusing Clock/Release) decides validity; its forcing-coverage test is model-checked against the operational forcing model (MC_Startup: a set-up that passes never extrapolates, a refused one lacks forcing in the window); StartupTrace validates the outcome of ladim.main for every base scenario x every single fault",
-        text="Every base scenario {forward, reversed} x {single, multi-file} x {discrete, continuous} x each of 24 single faults is materialised and run through ladim.main with recording plug-ins; TLC decides from the description of the faulted set-up whether it is valid and requires: invalid => error exit before the first step and no output record; valid => the run completes.",
+        text="Every base scenario {forward, reversed} x {single, multi-file} x {discrete, continuous} x each of 27 single faults is materialised and run through ladim.main with recording plug-ins; TLC decides from the description of the faulted set-up whether it is valid and requires: invalid => error exit before the first step and no output record; valid => the run completes.",
         note="Any error exit during start-up counts as refusal. Single faults only.",
         design="6 C20"),
     "C17": dict(
